@@ -131,8 +131,8 @@ def simulate(kind: str, start: int, end: int, Q: int, B: int, fail: int, sched: 
         steps += 1
         if steps > max_steps:
             return "diverge", out, delivered, pstate
-        c_en = (not cdone) and (creq[0] != "get" or len(buf) > 0) and (creq[0] != "join" or pstate == "done")
-        p_en = pstate == "running" and preq is not None and (preq[0] != "put" or len(buf) < Q)
+        c_en = (not cdone) and (creq[0] != "get" or len(buf) > 0) and (creq[0] != "join" or pstate == "done")  # get_nowait never blocks
+        p_en = pstate == "running" and preq is not None and (preq[0] != "put" or len(buf) < Q)  # put_nowait never blocks
         if not c_en and not p_en:
             if cdone and pstate == "done":
                 return "ok", out, delivered, pstate
@@ -154,6 +154,17 @@ def simulate(kind: str, start: int, end: int, Q: int, B: int, fail: int, sched: 
             elif k == "get":
                 csend = buf.pop(0)
                 delivered.append(csend)
+            elif k == "get_nowait":
+                if buf:
+                    csend = buf.pop(0)
+                    delivered.append(csend)
+                else:
+                    import queue as _q
+                    try:
+                        creq = cons.throw(_q.Empty())
+                    except StopIteration:
+                        cdone = True
+                    continue
             elif k == "out":
                 out.append(creq[1])
                 csend = None
@@ -167,14 +178,24 @@ def simulate(kind: str, start: int, end: int, Q: int, B: int, fail: int, sched: 
                 cdone = True
         else:
             k = preq[0]
+            throw = None
             if k == "put":
                 buf.append(preq[1])
+                psend = None
+            elif k == "put_nowait":
+                if len(buf) < Q:
+                    buf.append(preq[1])
+                else:
+                    import queue as _q
+                    throw = _q.Full()
                 psend = None
             elif k in ("empty", "full", "qsize"):
                 psend = {"empty": len(buf) == 0, "full": len(buf) >= Q, "qsize": len(buf)}[k]
             try:
-                preq = prod.send(psend)
+                preq = prod.throw(throw) if throw is not None else prod.send(psend)
             except StopIteration:
+                pstate, preq = "done", None
+            except Exception:  # noqa  the reader thread died with an uncaught exception
                 pstate, preq = "done", None
             psend = None
 
